@@ -33,7 +33,8 @@ RULE = ('(1) seeds = valid docgen documents and the C10 document pools for 5 sch
         'campaign on the same target. (3) limit sweeps: depth limits {5, 50, 200} and element limits {1, 3, 10, 1000} at '
         'limit-1, limit, limit+1, eager and lazy, with and without comments / processing instructions after every start tag. '
         '(4) every built-in type and 9 facet-restricted types x huge / odd lexical forms (30-80 digit durations, years, '
-        'fractions, exponents). Non-trivial: the mutant differs from its seed and reaches element-level '
+        'fractions, exponents). (5) deterministic: library calls that start a lazy iteration close it themselves (every '
+        'generator of resource.iter() is kept alive, the next validation must still work). Non-trivial: the mutant differs from its seed and reaches element-level '
         'validation (validation_hook called), or is a limit sweep point; distinct = distinct (schema, mutant bytes)')
 ASSUMPTIONS = [
     'documents are handed over through BytesIO / XMLResource(BytesIO): bare str/bytes not starting with "<" are locations',
